@@ -61,3 +61,111 @@ func AddUint32(p *uint32, d uint32) uint32 {
 	*p += d
 	return *p
 }
+
+func OrUint32(p *uint32, mask uint32) uint32 {
+	pre(0xa, p)
+	old := *p
+	if old|mask != old {
+		vs.Wrote()
+	}
+	*p = old | mask
+	return old
+}
+
+func AndUint32(p *uint32, mask uint32) uint32 {
+	pre(0xb, p)
+	old := *p
+	if old&mask != old {
+		vs.Wrote()
+	}
+	*p = old & mask
+	return old
+}
+
+// The signed and 64-bit forms go through the same scheduling point and monitor edge; the word they operate on is
+// identified by its address, whatever its type.
+
+func pre64(kind uint64, p *uint64) {
+	vs.Step(kind<<32 | *p&0xffffffff ^ *p>>32)
+	vs.SyncOp(uintptr(unsafe.Pointer(p)))
+}
+
+func LoadInt32(p *int32) int32     { return int32(LoadUint32((*uint32)(unsafe.Pointer(p)))) }
+func StoreInt32(p *int32, v int32) { StoreUint32((*uint32)(unsafe.Pointer(p)), uint32(v)) }
+func SwapInt32(p *int32, v int32) int32 {
+	return int32(SwapUint32((*uint32)(unsafe.Pointer(p)), uint32(v)))
+}
+func AddInt32(p *int32, d int32) int32 {
+	return int32(AddUint32((*uint32)(unsafe.Pointer(p)), uint32(d)))
+}
+func OrInt32(p *int32, m int32) int32 {
+	return int32(OrUint32((*uint32)(unsafe.Pointer(p)), uint32(m)))
+}
+func AndInt32(p *int32, m int32) int32 {
+	return int32(AndUint32((*uint32)(unsafe.Pointer(p)), uint32(m)))
+}
+func CompareAndSwapInt32(p *int32, old, new int32) bool {
+	return CompareAndSwapUint32((*uint32)(unsafe.Pointer(p)), uint32(old), uint32(new))
+}
+
+func LoadUint64(p *uint64) uint64 {
+	pre64(0x17, p)
+	return *p
+}
+
+func StoreUint64(p *uint64, v uint64) {
+	pre64(0x16, p)
+	if *p != v {
+		vs.Wrote()
+	}
+	*p = v
+}
+
+func SwapUint64(p *uint64, v uint64) uint64 {
+	pre64(0x15, p)
+	old := *p
+	if old != v {
+		vs.Wrote()
+	}
+	*p = v
+	return old
+}
+
+func CompareAndSwapUint64(p *uint64, old, new uint64) bool {
+	pre64(0x18, p)
+	if *p != old {
+		return false
+	}
+	if old != new {
+		vs.Wrote()
+	}
+	*p = new
+	return true
+}
+
+func AddUint64(p *uint64, d uint64) uint64 {
+	pre64(0x19, p)
+	if d != 0 {
+		vs.Wrote()
+	}
+	*p += d
+	return *p
+}
+
+func LoadInt64(p *int64) int64     { return int64(LoadUint64((*uint64)(unsafe.Pointer(p)))) }
+func StoreInt64(p *int64, v int64) { StoreUint64((*uint64)(unsafe.Pointer(p)), uint64(v)) }
+func AddInt64(p *int64, d int64) int64 {
+	return int64(AddUint64((*uint64)(unsafe.Pointer(p)), uint64(d)))
+}
+func SwapInt64(p *int64, v int64) int64 {
+	return int64(SwapUint64((*uint64)(unsafe.Pointer(p)), uint64(v)))
+}
+func CompareAndSwapInt64(p *int64, old, new int64) bool {
+	return CompareAndSwapUint64((*uint64)(unsafe.Pointer(p)), uint64(old), uint64(new))
+}
+
+func LoadUintptr(p *uintptr) uintptr     { return uintptr(LoadUint64((*uint64)(unsafe.Pointer(p)))) }
+func StoreUintptr(p *uintptr, v uintptr) { StoreUint64((*uint64)(unsafe.Pointer(p)), uint64(v)) }
+func CompareAndSwapUintptr(p *uintptr, old, new uintptr) bool {
+	return CompareAndSwapUint64((*uint64)(unsafe.Pointer(p)), uint64(old), uint64(new))
+}
